@@ -6,7 +6,11 @@ S (spec on the implementation's outputs): census / areas / two-sidedness / Euler
    tile_structure restated directly on tile_unit_cell's output (copies, joins, wrap crossings, positions,
    translated edge vectors); sizes and flux sector of the helpers.
 K (model vs implementation): every generator's (positions~, edges, crossing, colouring) exactly, for the
-   sizes of the property's quantifier; tile_unit_cell on regular and random Voronoi cells.
+   sizes of the property's quantifier; tile_unit_cell on regular and random Voronoi cells; the seven fixed fixture
+   graphs (two_triangles .. star_lattice_sheared) against the records TRANSLATED from their source literals
+   (translate/fixtures.py -> Gen/FixturesGen.v: positions exactly as dyadics, edges, crossings, colouring, ujk;
+   tutte_graph recentres its vertices with float arithmetic: its positions are not translated), and their
+   plaquette census three ways (implementation, plaquette model on the implementation's arrays, on the model's).
 Translator tie: generated Gallina helpers vs the Python functions on an exhaustive grid, every run."""
 from lib import *  # noqa
 import gen
@@ -19,13 +23,14 @@ from koala.lattice import Lattice, LatticeException
 from koala.flux_finder import fluxes_from_bonds
 
 DRIVERS = ("c10",)
-TRANSLATORS = ("tiling_helpers",)
-MODEL_TARGETS = ["Gen/TilingGen.vo", "Model/Lattice.vo", "Model/Tiling.vo", "Model/Examples.vo"]
+TRANSLATORS = ("tiling_helpers", "fixtures")
+MODEL_TARGETS = ["Gen/TilingGen.vo", "Model/Lattice.vo", "Model/Tiling.vo", "Model/Examples.vo", "Gen/FixturesGen.vo"]
 TARGETS = ["Proofs/TilingFacts.vo", "Proofs/TilingCount.vo", "Proofs/ExamplesFacts.vo", "Proofs/ExamplesIndex.vo", "Proofs/ExamplesCensus.vo", "Proofs/ExamplesCensusHC1.vo", "Proofs/ExamplesCensusHC2.vo", "Proofs/ExamplesCensusHC3.vo", "Proofs/ExamplesClaims.vo",
            "Proofs/PeriodicRot.vo", "Proofs/PeriodicFaces.vo", "Proofs/PeriodicTile.vo", "Proofs/PeriodicExamples.vo",
-           "Proofs/PeriodicBlock.vo", "Proofs/PeriodicGenerators.vo", "Proofs/TileDegree.vo"]
+           "Proofs/PeriodicBlock.vo", "Proofs/PeriodicGenerators.vo", "Proofs/TileDegree.vo", "Proofs/FixturesFacts.vo", "Proofs/PeriodicClosed.vo"]
 LEVEL = "proof"
 TRUST = [
+    "translate/fixtures.py reads the literal arrays of the seven fixed fixture graphs (fail closed on anything but np.array literals, zeros_like, [[0,0]]*n, int -= k; float arithmetic on positions makes them opaque = taken from the implementation)",
     "translate/tiling_helpers.py maps Python int //, %, comparisons, bool*int of _next_cell_number, _crossing and the two nested next_direction closures to Z.div, Z.modulo, Z.eqb, b2z (validated on an exhaustive grid of small arguments on every run, divisors != 0; not proved)",
     "hand-written Gallina models coq/Model/Tiling.v (tile_unit_cell's double loop) and coq/Model/Examples.v (numpy index arithmetic of the generators): modelled, not verified; tied to the code by the correspondence run for every size in the property's quantifier",
     "plaquette census theorems use coq/Model/Lattice.v's find_all_plaquettes (C01's model, tied to lattice.py by C01's correspondence); they hold for ALL sizes >= 2 (Proofs/Periodic*.v: faces of a periodic lattice = translates of the faces of its cell; per-cell certificates computed and checked in Coq) and, independently, by vm_compute for the quantifier's size ranges; ladder census and make_honeycomb flux sector remain bounded (vm_compute)",
@@ -560,6 +565,111 @@ def evaluate_tilings(ctx, cells, sizes, label, census_budget):
         res.hist["tile/census-checked"] = res.hist.get("tile/census-checked", 0) + 1
 
 
+# ------------------------------------------------------------------ fixed fixture graphs (translated literals)
+# what the names promise (restated in Coq on the translated records: Proofs/FixturesFacts.v, C10_fixtures_named)
+FIXTURE_SPEC = {
+    "two_triangles": {"census": [3, 3], "V": 4, "E": 5, "no_crossing": True},
+    "tri_square_pent": {"census": [3, 4, 5], "V": 8, "E": 10, "no_crossing": True},
+    "tutte_graph": {"V": 46, "E": 69, "degree": 3, "no_crossing": True},
+    "multi_graph": {"V": 2, "E": 4},
+    "bridge_graph": {"census": [3, 3], "V": 6, "E": 7, "no_crossing": True},
+    "concave_plaquette": {"census": [4], "V": 4, "E": 4, "no_crossing": True},
+    "star_lattice_sheared": {"V": 6, "E": 9, "degree": 3, "proper_coloring": True},
+}
+
+def evaluate_fixtures(ctx, label, only=None):
+    """K: the implementation's fixture lattices == the records translated from the source literals (positions exactly,
+    unless the function does float arithmetic on them: then edges/crossings only); colouring and ujk where returned.
+    S: the plaquette census of the implementation (lattice.plaquettes), of the Gallina finder on the implementation's
+    arrays and of the Gallina finder on the model's arrays agree."""
+    import fixtures as fxt
+    res = ctx.res
+    exe = ctx.exe["c10"]
+    names = list(fxt.FIXTURES)
+    idx = [i for i, n in enumerate(names) if only is None or n == only]
+    mout = run_driver_parallel(exe, [f"fixture {hx(i)}" for i in idx])
+    for i, mo in zip(idx, mout):
+        name = names[i]
+        case = {"kind": "fixture", "name": name}
+        res.count("fixture/" + name, (name, "fixture"))
+        try:
+            out = getattr(eg, name)()
+        except Exception as e:
+            res.violation("generator-raises:" + name, f"{name}() raised {type(e).__name__}: {e}", case)
+            continue
+        lat, col, ujk = (out if isinstance(out, tuple) else (out, None, None))
+        pos = np.array(lat.vertices.positions, dtype=float)
+        edges = np.array(lat.edges.indices, dtype=int)
+        crossing = np.array(lat.edges.crossing, dtype=int)
+        m = parse_zl(mo)
+        from_impl = mo["pos_from_impl"][0] == "1"
+        diffs = []
+        if [tuple(map(int, e)) for e in edges] != m["edges"]:
+            diffs.append(f"edges differ (model {len(m['edges'])}, impl {len(edges)})")
+        if [tuple(map(int, e)) for e in crossing] != m["crossing"]:
+            diffs.append("crossing differs")
+        if not from_impl:
+            mp = [(Fraction(x, m["scale"]), Fraction(y, m["scale"])) for x, y in m["pos"]]
+            ip = [(Fraction(float(x)), Fraction(float(y))) for x, y in pos]
+            if mp != ip:
+                bad = [k for k in range(min(len(mp), len(ip))) if mp[k] != ip[k]]
+                diffs.append(f"positions differ exactly (model {len(mp)}, impl {len(ip)}; first at {bad[:3]})")
+        if (col is not None or m.get("col")) and [int(x) for x in (col if col is not None else [])] != m.get("col", []):
+            diffs.append("colouring differs")
+        if (ujk is not None or m.get("ujk")) and [int(x) for x in (ujk if ujk is not None else [])] != m.get("ujk", []):
+            diffs.append("ujk differs")
+        res.traces += 1
+        if diffs:
+            ctx.k_mismatch(f"{label} fixture {name}: {diffs}", case)
+            continue
+        # ---------------- S: census three ways
+        zl_impl, S = ser_z(pos, edges, crossing)
+        if from_impl:
+            zl_model = zl_impl
+        else:
+            toks = [hx(m["scale"]), str(len(m["pos"]))] + [hx(v) for p_ in m["pos"] for v in p_]
+            toks += [str(len(m["edges"]))] + [hx(v) for e in m["edges"] for v in e]
+            toks += [str(len(m["crossing"]))] + [hx(v) for e in m["crossing"] for v in e]
+            zl_model = " ".join(toks)
+        so_i, so_m = run_driver_parallel(exe, [f"spec {zl_impl} 0 0", f"spec {zl_model} 0 0"])
+        if "error" in so_i or "error" in so_m:
+            raise RuntimeError(f"driver error on fixture {name}: {so_i.get('error')} {so_m.get('error')}")
+        sides_i = None if so_i["plaquettes"][0] == "ERR" else sorted(int(x) for x in so_i.get("sides", ["0"])[1:])
+        sides_m = None if so_m["plaquettes"][0] == "ERR" else sorted(int(x) for x in so_m.get("sides", ["0"])[1:])
+        if sides_i != sides_m:
+            ctx.k_mismatch(f"{label} fixture {name}: census of the model arrays {sides_m} != census of the implementation's arrays {sides_i}", case)
+        try:
+            own = sorted(int(p.n_sides) for p in lat.plaquettes)
+        except LatticeException:
+            own = None
+        except Exception as e:
+            res.violation("fixture-plaquettes-raise:" + name, f"{name}().plaquettes raised {type(e).__name__}: {e}", case)
+            continue
+        if so_i["wf"][0] == "1" and angular_margin(lat) >= 1e-9 and own != sides_i:
+            res.violation("fixture-census:" + name, f"{name}: lattice.plaquettes has sides {own}, the plaquette model on the same arrays {sides_i}", case)
+        # ---------------- S: the graph is the one it is named after
+        want = FIXTURE_SPEC.get(name, {})
+        deg = np.bincount(edges.flatten(), minlength=len(pos)) if len(edges) else np.zeros(len(pos), dtype=int)
+        bad = []
+        if "census" in want and own != want["census"]:
+            bad.append(f"plaquette sides {own}, expected {want['census']}")
+        if "V" in want and (len(pos), len(edges)) != (want["V"], want["E"]):
+            bad.append(f"(V, E) = ({len(pos)}, {len(edges)}), expected ({want['V']}, {want['E']})")
+        if "degree" in want and not all(int(x) == want["degree"] for x in deg):
+            bad.append(f"not {want['degree']}-regular")
+        if want.get("no_crossing") and np.any(crossing != 0):
+            bad.append("has boundary-crossing edges")
+        if want.get("proper_coloring") and col is not None:
+            for v in range(len(pos)):
+                cs = [int(col[k]) for k in range(len(edges)) for end in edges[k] if end == v]
+                if len(cs) != len(set(cs)) or any(c not in (0, 1, 2) for c in cs):
+                    bad.append(f"colouring not proper at vertex {v}")
+                    break
+        if bad:
+            res.violation("fixture-named:" + name, f"{name}: " + "; ".join(bad), case)
+        res.sample({"case": case, "V": int(len(pos)), "E": int(len(edges)), "census": own, "pos_from_impl": from_impl})
+
+
 # ------------------------------------------------------------------ translator validation
 def validate_translator(ctx, big=False):
     res = ctx.res
@@ -696,6 +806,7 @@ def run(ctx):
         seen = {json.dumps(c, sort_keys=True) for c in cases}
         cases += [c for c in generator_cases(ctx.tier, big=True) if json.dumps(c, sort_keys=True) not in seen]
     evaluate_generators(ctx, cases, "K(generators)")
+    evaluate_fixtures(ctx, "K(fixtures)")
     sizes = ALL_SIZES if ctx.tier == "quick" else ALL_SIZES + [(5, 1), (1, 5), (5, 3), (2, 5), (5, 5), (6, 2)]
     evaluate_tilings(ctx, unit_cells(ctx.tier, ctx.seed), sizes, "K(tile)", 40 if ctx.tier == "quick" else 400)
     if ctx.tier != "quick":
@@ -706,6 +817,7 @@ def search(ctx):
     """after a proof / the translator / K broke: enlarged ranges, other seed"""
     validate_translator(ctx, big=True)
     evaluate_generators(ctx, generator_cases("thorough", big=(ctx.tier != "quick")), "search(generators)")
+    evaluate_fixtures(ctx, "search(fixtures)")
     sizes = ALL_SIZES if ctx.tier == "quick" else [(a, b) for a in range(1, 6) for b in range(1, 6)]
     evaluate_tilings(ctx, unit_cells("thorough" if ctx.tier != "quick" else "quick", ctx.seed + 1, big=True), sizes, "search(tile)", 100)
 
@@ -718,5 +830,7 @@ def replay(ctx, payload):
         evaluate_tilings(ctx, [case["cell"]], [tuple(case["nxy"])], "replay", 1)
     elif case.get("kind") == "crosscheck":
         crosscheck(ctx)
+    elif case.get("kind") == "fixture":
+        evaluate_fixtures(ctx, "replay", only=case["name"])
     else:
         validate_translator(ctx)
